@@ -505,6 +505,15 @@ func (e *enc) binop(st *State, x *ssa.BinOp) {
 			e.assume(fmt.Sprintf("(and (<= 0 %s) (<= %s %s) (<= %s %s))", r, r, a, r, b))
 		}
 	case token.OR, token.XOR, token.AND_NOT:
+		if x.Op == token.OR {
+			// x | 2^k for a constant single bit: exact arithmetic (x already has the bit, or gains it)
+			for _, pair := range [][2]ssa.Value{{x.X, x.Y}, {x.Y, x.X}} {
+				if k, ok := constInt(pair[1]); ok && k.Sign() > 0 && new(big.Int).And(k, new(big.Int).Sub(k, big.NewInt(1))).Sign() == 0 {
+					e.setVal(x, orBitTerm(e.val(pair[0]), k.String()))
+					return
+				}
+			}
+		}
 		f := map[token.Token]string{token.OR: "bitor", token.XOR: "bitxor", token.AND_NOT: "bitandnot"}[x.Op]
 		if f == "bitandnot" {
 			e.declareFun("bitandnot", "(Int Int) Int")
@@ -515,6 +524,11 @@ func (e *enc) binop(st *State, x *ssa.BinOp) {
 	default:
 		panic("unsupported binop " + x.Op.String())
 	}
+}
+
+// orBitTerm: x | bit for non-negative x and a power of two.
+func orBitTerm(x, bit string) string {
+	return fmt.Sprintf("(ite (= (mod (div %s %s) 2) 1) %s (+ %s %s))", x, bit, x, x, bit)
 }
 
 func (e *enc) eqTerm(a, b string, t types.Type) string {
